@@ -506,4 +506,6 @@ def func_nodes(func):
 
 def norm(node):
     """Normalised source text of a node (position independent)."""
+    if node is None:
+        return ""
     return ast.unparse(node)
